@@ -274,6 +274,17 @@ def check_path_door(ctx, m, model):
             ray.ray_tracing_for_paths([path])
             rgeo = ray.RayGeometry.from_path(path)
             th = rgeo.conventional_inc_angle(1)
+            two_wall = {}
+            for mode2 in ("L", "T"):
+                bw = g.Points(np.array([[float(tgt.coords[0, 0]), 0.0, 8e-3]]), "Backwall")
+                t2 = g.Points(np.array([[float(tgt.coords[0, 0]) + rng.uniform(1e-3, 6e-3), 0.0, 3e-3]]), "Target2")
+                if2 = (ifaces[0], ifaces[1],
+                       arim.Interface(bw, g.default_orientations(bw), kind="solid_fluid", transmission_reflection="reflection", reflection_against=fluid,
+                                      are_normals_on_inc_rays_side=False, are_normals_on_out_rays_side=False),
+                       arim.Interface(t2, g.default_orientations(t2), are_normals_on_inc_rays_side=True))
+                path2 = arim.Path(if2, (fluid, solid, solid), ("L", mode, mode2), name=mode + mode2)
+                ray.ray_tracing_for_paths([path2])
+                two_wall[mode2] = (path2, ray.RayGeometry.from_path(path2))
             for unit in ("stress", "displacement"):
                 for fc in (True, False):
                     cj = {"op": "path_door", "media": m, "incidence": float(th[0, 0]), "mode": mode, "unit": unit, "force_complex": fc}
@@ -295,6 +306,21 @@ def check_path_door(ctx, m, model):
                         if np.isnan(x) or np.isnan(y):
                             return np.isnan(x) and np.isnan(y)
                         return rel_close(x, y, 1e-12)
+                    # the same path prolonged by a reflection on a back wall (mode conversion L<->T included): the path-level
+                    # product is the product of the two per-interface helpers, in the requested unit at BOTH interfaces
+                    for mode2, (path2, rg2) in two_wall.items():
+                        th1, th2 = rg2.conventional_inc_angle(1), rg2.conventional_inc_angle(2)
+                        with np.errstate(all="ignore"):
+                            got2 = model.transmission_reflection_for_path(path2, rg2, force_complex=fc, unit=unit)
+                            a1 = np.asarray(th1, dtype=complex) if fc else np.asarray(th1)
+                            a2 = np.asarray(th2, dtype=complex) if fc else np.asarray(th2)
+                            w1 = model.transmission_at_interface(arim.InterfaceKind.fluid_solid, fluid, solid, arim.Mode.L, arim.Mode[mode], a1, force_complex=fc, unit=unit)
+                            w2 = model.reflection_at_interface(arim.InterfaceKind.solid_fluid, solid, fluid, arim.Mode[mode], arim.Mode[mode2], a2, force_complex=fc, unit=unit)
+                        ctx.count("path_door:two_walls")
+                        if not same(got2, np.ravel(w1)[0] * np.ravel(w2)[0]):
+                            ctx.violate(f"two-wall path {mode}{mode2} ({unit}): the path-level product {np.ravel(got2)[0]} is not transmission x reflection of the helpers "
+                                        f"({np.ravel(w1)[0]} x {np.ravel(w2)[0]})", {**cj, "second_mode": mode2, "incidence_2": float(th2[0, 0])}, {"kind": "path_door"})
+                            break
                     if fc and (np.isnan(complex(np.ravel(rev)[0])) or np.isnan(complex(np.ravel(fwd)[0]))):
                         ctx.violate(f"with force_complex the path-level coefficient is NaN at incidence {np.rad2deg(float(th[0, 0])):.3f} deg "
                                     f"(direct {np.ravel(fwd)[0]}, reverse {np.ravel(rev)[0]}): beyond critical incidence the refracted angle is complex, not undefined", cj, {"kind": "path_door"})
